@@ -853,6 +853,7 @@ func AdoptSession(p Persistence, c *Config) (client *Client, warn []error, fatal
 
 	// storage includes a sequence number
 	storeOrderPerKey := make(map[uint]uint64, len(keys))
+	var storeOrderLast uint64 // highest in use
 
 	// “When a Client reconnects with CleanSession set to 0, both the Client
 	// and Server MUST re-send any unacknowledged PUBLISH Packets (where QoS
@@ -881,6 +882,9 @@ func AdoptSession(p Persistence, c *Config) (client *Client, warn []error, fatal
 		}
 
 		storeOrderPerKey[key] = storageSeqNo
+		if storageSeqNo > storeOrderLast {
+			storeOrderLast = storageSeqNo
+		}
 
 		switch packet[0] >> 4 {
 		case typePUBLISH:
@@ -925,7 +929,9 @@ func AdoptSession(p Persistence, c *Config) (client *Client, warn []error, fatal
 	if n := len(publishExactlyOnceKeys) + len(publishReleaseKeys); n > c.ExactlyOnceMax {
 		return nil, warn, fmt.Errorf("mqtt: %d ExactlyOnceMax is less than the %d pending in session", c.ExactlyOnceMax, n)
 	}
-	client = newClient(&ruggedPersistence{Persistence: p}, c)
+	rugged := &ruggedPersistence{Persistence: p}
+	rugged.seqNo.Store(storeOrderLast) // continue sequence
+	client = newClient(rugged, c)
 
 	// check for outbound publish pending confirmation
 	if keys = publishAtLeastOnceKeys; len(keys) != 0 {
